@@ -876,6 +876,10 @@ impl Case for LifeCase {
             }
             1 => {
                 let i = *rng.pick(&live);
+                let room = simk::with_ring(self.rfd, |r, _| r.sq_entries.saturating_sub(r.sq_tail().wrapping_sub(r.sq_head())));
+                if self.ops[i].attempts == 0 && !self.ops[i].finished && !self.ring_dropped && room > 0 && rng.chance(1, 12) {
+                    return Some(format!("life cpoll {i}"));
+                }
                 // mostly the same waker per op, sometimes a replaced one
                 let w = if rng.chance(3, 4) { i as u64 * 10 } else { i as u64 * 10 + rng.range(1, 3) };
                 if rng.chance(1, 25) && !self.ring_dropped {
@@ -1092,6 +1096,34 @@ impl Case for LifeCase {
                 if !lines.is_empty() && self.ring_dropped {
                     self.ops[i].started_after_rdrop = true;
                 }
+                out.extend(lines);
+            }
+            ["life", "cpoll", i] => {
+                // First poll of an operation with a waker whose `clone` panics: the submission is
+                // queued before the waker is stored, so the operation must count as running when
+                // the panic unwinds out of the poll (fix c6c693c) — with no waker stored.
+                let Ok(i) = i.parse::<usize>() else { return vec!["bad-op".into()] };
+                if i >= self.ops.len() || self.ops[i].obj.is_none() || self.ops[i].attempts != 0 || self.ops[i].finished || self.ring_dropped {
+                    return vec!["bad-op".into()];
+                }
+                let room = simk::with_ring(self.rfd, |r, _| r.sq_entries.saturating_sub(r.sq_tail().wrapping_sub(r.sq_head())));
+                if room == 0 {
+                    return vec!["bad-op".into()];
+                }
+                let old_tail = simk::with_ring(self.rfd, |r, _| r.sq_tail());
+                let waker = util::clone_panicking_waker();
+                let mut cx = Context::from_waker(&waker);
+                let mut obj = self.ops[i].obj.take().unwrap();
+                let r = util::catch(|| obj.poll(&mut cx));
+                self.ops[i].obj = Some(obj);
+                out.push(match r {
+                    Err(_) => "panic".to_string(),
+                    Ok(None) => "pending".to_string(),
+                    Ok(Some(l)) => l,
+                });
+                self.feats.push("waker-clone-panics".into());
+                self.ops[i].last_pending = None;
+                let lines = self.new_sqes(old_tail, Some(i), None);
                 out.extend(lines);
             }
             ["life", dropkind @ ("drop" | "pdrop"), i] => {
